@@ -1,6 +1,7 @@
 """Per-property configuration of bin/check: which harness profile produces the histories, which
 differences between model and implementation concern the property, the model-free monitor."""
 import mon_rns
+import mon_notif
 
 BASE_TRUST = [
     "Lean 4.33 kernel; axioms limited to propext, Classical.choice, Quot.sound (audited per theorem with #print axioms)",
@@ -26,7 +27,20 @@ RNS_ASSUME = [
     "module accounts never sign; the rns module account is a blocked recipient and differs from the POL account",
 ]
 
+def notif_runs(tier, seed):
+    if tier == "quick":
+        return [{"profile": "notif", "args": ["notif", "-seed", str(seed * 10 + k), "-hist", "6", "-steps", "300"]} for k in range(2)]
+    return [{"profile": "notif", "args": ["notif", "-seed", str(seed * 100 + k), "-hist", "12", "-steps", "600"]} for k in range(16)]
+
+
 PROPS = {
+    "C18": {
+        "runs": notif_runs, "replay_runs": replay_runs, "monitor": mon_notif.C18, "stateful": True,
+        "diff_relevant": lambda d: d["mod"] == "notif",
+        "trusted_base": BASE_TRUST + ["rns.Resolve and json.Valid are oracle inputs of the model (their results are recorded by the harness)",
+                                      "raw store keys are split on '/' by the harness; addresses are bech32 and contain no '/'"],
+        "assumptions": ["recipient addresses are '/'-free (bech32)", "block time is strictly increasing between blocks"],
+    },
     "C08": {
         "runs": rns_runs, "replay_runs": replay_runs, "monitor": mon_rns.c08,
         "diff_relevant": lambda d: d["mod"] == "rns" and d["op"] not in ("bid", "cancelBid", "makePrimary") and
